@@ -23,6 +23,10 @@ CHECKS = {
                 text="TLC checks Layout (slices tile in creation order, one init/bounds/fixed entry per component, one auxiliary datum per constrained component) on every state; replay checks the same statements on the layout pyhf REPORTS (any order is accepted), published defaults and measurement overrides verbatim, POI index, untouched caller specification, and independence of the (shuffled) listing order because every shuffled model must reproduce the exact rates.",
                 note="the implementation-shaped creation order is only a MODEL-DRIFT prediction; overrides explored: lumi settings (inits, bounds, auxdata, sigmas) in the TLC space, further overrides in the workspace check",
                 technique="TLC invariant Layout + replay of reported configuration"),
+    "C20": dict(engine="hfvalidity", design="4/C20", level="fault_enumeration",
+                text="MC_HFValidity.tla injects every single structural fault of the classes the property lists (duplicate channel/sample/modifier, sample and modifier-data length, bin-wise modifier shared across bin counts, conflicting constraint class for one name, override of wrong length, undefined POI, lumi without settings; thorough: pairs) at every applicable position of every small well-formed specification; TLC proves each faulty specification violates the property's well-formedness predicate WF and each unfaulted one satisfies it (so refusal is never demanded of a consistent spec); the faulty specifications are replayed through pyhf.Model and Workspace.model and must be refused with an exception class defined in pyhf.exceptions. Fault enumeration is the natural level: the property quantifies over fault classes x positions.",
+                note="WF in MC_HFValidity.tla is my formalisation of 'structurally inconsistent'; a staterror name reused by the same sample across channels is deliberately not injected (coherent per-bin model in pyhf, see DESIGN.md); bounded by <=2 placements, 2 channels x 2 samples",
+                technique="TLA+ fault-injection actions + TLC (FaultBreaksWF, CleanIsWF) + replay of every faulty state"),
 }
 
 NOT_APPLICABLE = [
@@ -61,6 +65,8 @@ def build():
         "engines": [
             {"name": "hfmodel", "path": "spec/HFModel.tla spec/MC_HFModel.tla harness/checks/hf.py harness/hfreplay.py",
              "serves_properties": ["C01", "C02", "C10", "C12"], "kind_free_text": "TLA+ reference model of pyhf.Model (definition layer + implementation-shaped layer), TLC exhaustive check, replay of TLC states into pyhf"},
+            {"name": "hfvalidity", "path": "spec/MC_HFValidity.tla harness/checks/c20.py harness/validity.py",
+             "serves_properties": ["C20"], "kind_free_text": "TLA+ fault injectors over the HFModel specification space, replayed into pyhf.Model / Workspace.model"},
         ],
         "checks": checks,
         "not_applicable": na,
